@@ -65,7 +65,7 @@ type Case struct {
 	Steps []Step `json:"steps"`
 }
 
-var kinds = []string{"direct", "host", "catchall", "ignore-add", "ignore-remove", "redirect", "notfound", "nomethod", "options", "lookup", "lookup-tsr", "host-infix-tsr", "double-infix-tsr", "infix", "hijack", "infix-empty-seg", "double-infix-empty-seg"}
+var kinds = []string{"direct", "host", "catchall", "ignore-add", "ignore-remove", "redirect", "notfound", "nomethod", "options", "lookup", "lookup-tsr", "host-infix-tsr", "double-infix-tsr", "infix", "hijack", "infix-empty-seg", "double-infix-empty-seg", "nomethod-host"}
 
 type expKey struct{}
 
@@ -315,6 +315,10 @@ func newHarness() (*harness, error) {
 	})
 	f.MustHandle("POST", "/m/{tok}", rh)
 	f.MustHandle("PUT", "/m/{tok}", rh)
+	// hostname routes of another method whose labels compete (static "api" versus a parameter): the lookups that compute the
+	// Allow header of a 405 backtrack through them on the context the no-method handler then receives
+	f.MustHandle("DELETE", "{tok}.api.nm.example.com/sync", rh)
+	f.MustHandle("DELETE", "{tok}.{tok2}.nm.example.com/report/{tok3}", rh)
 	return h, nil
 }
 
@@ -353,6 +357,8 @@ func buildStep(s Step, tok string, n int) (*http.Request, *exp) {
 		path, e.scope = "/none/"+tok, fox.NoRouteHandler
 	case "nomethod":
 		path, e.scope = "/m/"+tok, fox.NoMethodHandler
+	case "nomethod-host":
+		host, path, e.scope = tok+".api.nm.example.com", "/report/"+tok, fox.NoMethodHandler
 	case "options":
 		method, path, e.scope = "OPTIONS", "/p/"+tok+"/x/"+tok, fox.OptionsHandler
 	}
